@@ -10,8 +10,8 @@
 #include "Tree.c"
 
 enum { MAXU = 6000 };
-enum { KM_INT, KM_INT_WIDE, KM_STR, KM_PE, KM_COUNT };
-static const char* KMNAME[KM_COUNT] = { "int", "int-wide", "str", "pelem" };
+enum { KM_INT, KM_INT_WIDE, KM_STR, KM_PE, KM_STR_PREFIX, KM_COUNT };
+static const char* KMNAME[KM_COUNT] = { "int", "int-wide", "str", "pelem", "str-prefix-chains" };
 
 static int kmode, U;
 static var K[MAXU];
@@ -21,8 +21,21 @@ static int nmodel;
 static int64_t version;
 static int direction;     /* 0 unknown, +1 ascending, -1 descending: pinned at first observation */
 
+/* KM_STR_PREFIX: String keys in which every key is followed, in key order, by its own extensions ("a", "aa", "aaa",
+   "aab", "ab", ...: the strings over {a,b} in lexicographic order): neighbours in the tree are prefixes of each other */
+static char pfx[MAXU][16];
+static int pfx_n;
+static void pfx_gen(char* cur, int len, int maxlen, int want) {
+  if (pfx_n >= want) { return; }
+  if (len > 0) { memcpy(pfx[pfx_n], cur, (size_t)len); pfx[pfx_n][len] = 0; pfx_n++; }
+  if (len == maxlen) { return; }
+  cur[len] = 'a'; pfx_gen(cur, len + 1, maxlen, want);
+  cur[len] = 'b'; pfx_gen(cur, len + 1, maxlen, want);
+}
+
 static int key_to_id(var k) {
   switch (kmode) {
+    case KM_STR_PREFIX: { const char* s = ((struct String*)k)->val; for (int i = 0; i < U; i++) { if (strcmp(s, pfx[i]) == 0) { return i; } } return -1; }
     case KM_INT: { int64_t v = ((struct Int*)k)->val + 1000; return (v % 3 == 0 && v / 3 >= 0 && v / 3 < U) ? (int)(v / 3) : -1; }
     case KM_INT_WIDE: {
       int64_t v = ((struct Int*)k)->val;
@@ -38,8 +51,14 @@ static int key_to_id(var k) {
 }
 
 static void make_keys(void) {
+  if (kmode == KM_STR_PREFIX) {
+    /* the first U strings of the full trie of depth L (2^(L+1)-2 >= U): deep enough that chains are long */
+    int L = 1; while ((2 << L) - 2 < U) { L++; }
+    char cur[16]; pfx_n = 0; pfx_gen(cur, 0, L + 2 > 14 ? 14 : L + 2, U);
+  }
   for (int i = 0; i < U; i++) {
     switch (kmode) {
+      case KM_STR_PREFIX: K[i] = new_raw(String, $S(pfx[i])); break;
       case KM_INT: K[i] = new_raw(Int, $I((int64_t)i * 3 - 1000)); break;
       /* within +-2^30 * U/2: differences stay far from the int64 limits (C09 owns that) */
       case KM_INT_WIDE: K[i] = new_raw(Int, $I(((int64_t)i - U / 2) * ((int64_t)1 << 29))); break;
@@ -49,7 +68,7 @@ static void make_keys(void) {
   }
 }
 static void free_keys(void) { for (int i = 0; i < U; i++) { del_raw(K[i]); K[i] = NULL; } }
-static var key_type_of_mode(void) { return kmode == KM_STR ? String : kmode == KM_PE ? PElem : Int; }
+static var key_type_of_mode(void) { return (kmode == KM_STR || kmode == KM_STR_PREFIX) ? String : kmode == KM_PE ? PElem : Int; }
 
 /* ---------- white-box validator (own traversal of the node layout) ---------- */
 
